@@ -21,7 +21,17 @@ import traceback
 VERIF = os.path.dirname(os.path.dirname(os.path.abspath(__file__)))
 REPO = os.environ.get("VERIF_REPO", "/repo")
 OUT = os.environ.get("VERIF_OUT", VERIF)  # evidence/ and replays/ go here (mutant runs redirect it)
-NPROC = int(os.environ.get("VERIF_NPROC", "16"))
+def _default_nproc():
+    """16 workers, fewer when the machine is already heavily oversubscribed (results never depend on it)."""
+    n = min(16, os.cpu_count() or 16)
+    try:
+        load = os.getloadavg()[0]
+    except OSError:
+        load = 0.0
+    return max(2, n // 4) if load > 2 * n else n
+
+
+NPROC = int(os.environ.get("VERIF_NPROC") or _default_nproc())
 
 
 class HarnessError(Exception):
